@@ -1377,8 +1377,12 @@ func (u *Unit) callAssertions(st *State, fr *Frame, site ssa.Instruction, desigs
 		}
 		g, err := env.EvalBool(cl.Expr)
 		if err != nil {
-			u.specError(cl, err)
-			continue
+			if u.missingCallIsViolation(err) {
+				g = False // the clause speaks about a call this path no longer makes
+			} else {
+				u.specError(cl, err)
+				continue
+			}
 		}
 		ord := u.siteOrdinal(site, "assert_call:"+cl.Desig)
 		lbl := cl.Name
@@ -1994,3 +1998,36 @@ func (u *Unit) helperMayCall(helper *ssa.Function, desig string) bool {
 	}
 	return visit(helper)
 }
+
+// missingCallIsViolation: a clause could not be evaluated because it mentions
+// lastresult/lastarg of a call that does not happen on this path. The contracts guard
+// such mentions with called(...) wherever the call is conditional, so on the unchanged
+// tree this never happens; after a change it means the call was removed. It stays
+// "cannot decide" when the call may have moved into a helper without contract or the
+// callee's own contract lost its target (rename).
+func (u *Unit) missingCallIsViolation(err error) bool {
+	msg := err.Error()
+	var desig string
+	for _, pfx := range []string{`lastresult: no call to "`, `lastarg: no call to "`} {
+		if i := strings.Index(msg, pfx); i >= 0 {
+			rest := msg[i+len(pfx):]
+			if j := strings.Index(rest, `"`); j >= 0 {
+				desig = rest[:j]
+			}
+		}
+	}
+	if desig == "" {
+		return false
+	}
+	if u.P.desigNamesMissingTarget(desig) != nil {
+		return false
+	}
+	for _, hf := range u.uncontracted {
+		if u.helperMayCall(hf, desig) || u.helperMayCall(hf, shortDesig(desig)) {
+			return false
+		}
+	}
+	return true
+}
+
+func shortDesig(d string) string { return d }
